@@ -388,6 +388,68 @@ def compaction_crash_history(args):
         shutil.rmtree(base, ignore_errors=True)
 
 
+def compaction_among_writes(args):
+    """a compaction that is started while client writes are in flight (appended, some not yet applied); every write of such a burst
+    creates a key of its own, so that applying an entry a second time after the restart changes nothing - what the known snapshot-cut
+    defect does to these histories is invisible, and an acknowledged write that the snapshot claims but does not hold is not"""
+    wd, seed, n_bursts = args
+    rnd = random.Random(seed)
+    d = os.path.join(wd, "caw%d" % seed)
+    shutil.rmtree(d, ignore_errors=True)
+    res = {"seed": seed, "snap": 10000, "variant": "compaction-among-writes-to-fresh-keys", "restarts": 0, "writes": 0, "rejected": 0, "kinds": ["ConfigSet"], "max_snapshot_id": 0}
+    sess = None
+    try:
+        sess = noderig.NodeSession(d, snapshot_size=10000)
+        b = sess.call("barrier", min_index=1, bound_ms=RECOVER_BOUND_MS)
+        if not b.get("ok"):
+            res["inconclusive"] = "initial barrier failed: %s" % b
+            return res
+        gen = noderig.ReqGen(rnd)
+        seqm = SeqModel()
+        last_index = 0
+        n = 0
+        for burst in range(n_bursts):
+            reqs = []
+            for _ in range(rnd.choice([8, 20, 40])):
+                n += 1
+                reqs.append({"ConfigSet": {"key": "caw-%d-%d\x02g%d\x02t%d" % (seed % 1000, n, n % 2, n % 3) if n % 3 else "caw-%d-%d\x02g%d" % (seed % 1000, n, n % 2),
+                                           "value": "v%d-%s" % (n, "x" * rnd.choice([3, 200, 3000])), "config_type": None, "desc": None, "history_id": 0,
+                                           "history_table_id": None, "op_time": 1700000000000 + n, "op_user": None}})
+            r = sess.call("burst_with_compaction", reqs=reqs, compact_after=rnd.choice([1, 3, len(reqs) // 2]), lead_us=rnd.choice([0, 200, 600, 1500, 4000]))
+            if not r.get("ok"):
+                res["inconclusive"] = "burst failed: %s" % json.dumps(r)[:200]
+                return res
+            res["writes"] += r.get("acked", 0)
+            res["rejected"] += r.get("refused", 0)
+            last_index = max(last_index, r.get("max_index") or 0)
+            if isinstance(r.get("snapshot_index"), int):
+                res["max_snapshot_id"] += 1
+                if r.get("min_index") and r["snapshot_index"] >= r["min_index"]:
+                    res["compactions_among_writes"] = res.get("compactions_among_writes", 0) + 1
+            for q in reqs:
+                parts = q["ConfigSet"]["key"].split("\x02")
+                gen.config_keys.add((parts[0], parts[1], parts[2] if len(parts) > 2 else ""))
+            sess, v = restart_compare(sess, d, gen, 10000, last_index, "restart#%d" % burst, seqm)
+            res["restarts"] += 1
+            if v:
+                for x in (v if isinstance(v, list) else [v]):
+                    if x.get("inconclusive"):
+                        res["inconclusive"] = "%s: %s" % (x["symptom"], json.dumps(x.get("detail"))[:200])
+                        return res
+                    x["history_seed"] = seed
+                    x["bursts"] = n_bursts
+                    res.setdefault("violations", []).append({"signature": "compaction-among-writes/%s/%s/%s/%s" % (x["symptom"], x.get("component", "-"), x.get("direction", "-"), x.get("field", "-")), "witness": x})
+                return res
+        return res
+    except noderig.NodeDied as e:
+        res["inconclusive"] = "node session died: %s" % e
+        return res
+    finally:
+        if sess:
+            sess.kill()
+        shutil.rmtree(d, ignore_errors=True)
+
+
 def interrupted_compaction(args):
     """an earlier compaction attempt was interrupted and left a partial snapshot_<next id> behind; the node restarts,
     shrinks its state, compacts again (same file name) and restarts once more"""
@@ -510,6 +572,7 @@ def run(tier, seed):
         results = []
         with ThreadPoolExecutor(max_workers=common.NCPU) as ex:
             futs = [ex.submit(one_history, j) for j in jobs] + [ex.submit(interrupted_compaction, j) for j in ic]
+            futs += [ex.submit(compaction_among_writes, (wd, seed * 100000 + 95000 + i, 3)) for i in range(6 if tier == "quick" else 60)]
             # long histories first (they take about a minute each): with a few thousand entries the snapshot writer is still draining
             # its queue when the compaction moves on, which is the window a missing flush barrier would open
             futs = [ex.submit(compaction_crash_history, (wd, seed * 100000 + 90000 + i, [1200 if tier == "quick" else 2500, 300][i % 2])) for i in range(4 if tier == "quick" else 24)] + futs
